@@ -325,3 +325,40 @@ def _jsonable(x):
         if isinstance(x, (list, tuple)):
             return [_jsonable(v) for v in x]
         return str(x)
+
+
+def crosscheck(h, n, seed):
+    """CPython cross-check of the engine (DESIGN 2.9): the harness in concrete mode on the PRISTINE library and on the
+    library with shims + mechanically rewritten functions installed must agree clause by clause on the same inputs."""
+    out = {'tried': 0, 'compared': 0, 'disagreements': []}
+    for i in range(n):
+        res = []
+        for installed in (False, True):
+            rng = random.Random(seed * 7919 + i)
+            (install.install if installed else install.uninstall)()
+            c = Ctx(h.name, h.props, mode='conc', values={}, rng=rng)
+            c.model = c.model_consts = None
+            set_ctx(c)
+            try:
+                try:
+                    h.fn(c)
+                    r = [(cl, ok) for cl, k, ok, m in c.conc_results]
+                except Reject:
+                    r = 'reject'
+                except Abort:
+                    r = [(cl, ok) for cl, k, ok, m in c.conc_results]
+                except Unmodelled as e:
+                    r = 'unmodelled: %s' % e
+                except Exception as e:
+                    r = 'exception %s' % type(e).__name__
+            finally:
+                set_ctx(None)
+            res.append(r)
+        install.install()
+        out['tried'] += 1
+        if res[0] == 'reject' and res[1] == 'reject':
+            continue
+        out['compared'] += 1
+        if res[0] != res[1] and len(out['disagreements']) < 5:
+            out['disagreements'].append({'sample': i, 'pristine': str(res[0])[:3000], 'installed': str(res[1])[:3000]})
+    return out
